@@ -107,6 +107,8 @@ def rule_reset_whole(ctx, fx, config, prop="C11"):
             continue
         with rs.deep():
             a = render(rs.sym_operand(t["args"][0]))
+        # `v.iter_mut()` on a Vec goes through DerefMut to the slice: the whole of it
+        a = re.sub(r"^(?:deref_mut|deref|as_mut_slice|as_mut)\((self\.\w+)\)$", r"\1", a)
         m = re.search(r"self\.(\w+)", a)
         if not m:
             continue
